@@ -221,9 +221,9 @@ Qed.
 
 Lemma INV_pod_add cfg wf st id qn np req keys :
   INV cfg wf st -> (wf = true -> pod_okb req keys = true) ->
-  INV cfg wf (mkState (touch_request st (mkPod id qn req keys np false) (quotas st)
-                                     (pods st ++ [mkPod id qn req keys np false]))
-                      (pods st ++ [mkPod id qn req keys np false]) (total st)).
+  INV cfg wf (mkState (touch_request st (mkPod id qn req keys np false false) (quotas st)
+                                     (pods st ++ [mkPod id qn req keys np false false]))
+                      (pods st ++ [mkPod id qn req keys np false false]) (total st)).
 Proof.
   intros I Hr. destruct st as [qs0 ps tot]. cbn [quotas pods total] in *.
   apply INV_touch with (ps := ps); [exact I|].
@@ -257,26 +257,48 @@ Proof.
     rewrite Kid in Hid. exact (taint_ids_tainted ids0 qs0 x0 Hx0 Hid).
 Qed.
 
+(* a pod that carries a node name is charged without admission (informer replay / fail-over) *)
+Lemma INV_bound_charge cfg wf st p ps' :
+  INV cfg wf st -> (wf = true -> forall x, In x ps' -> pod_okb (p_req x) (p_keys x) = true) ->
+  INV cfg wf
+    (charge (mkState (touch_request st p (taint_ids (map q_id (path st (p_quota p))) (quotas st)) ps')
+                     ps' (total st)) p).
+Proof.
+  intros I Hps'. destruct st as [qs0 ps tot]. cbn [quotas pods total] in *.
+  set (ids0 := map q_id (path (mkState qs0 ps tot) (p_quota p))).
+  assert (I1 : INV cfg wf (mkState (touch_request (mkState qs0 ps tot) p (taint_ids ids0 qs0) ps') ps' tot)).
+  { apply INV_touch with (ps := ps); [apply INV_taint; exact I|exact Hps']. }
+  destruct (pod_add_bound_facts qs0 ps tot p ps') as [Eids Htn].
+  fold ids0 in Eids, Htn.
+  unfold charge. cbn [quotas pods total]. rewrite Eids.
+  apply INV_upd_used with (ps := ps'); [exact I1| |].
+  - intros W q Hq Hid Hnt. exfalso. rewrite (Htn q Hq Hid) in Hnt. discriminate Hnt.
+  - intro W. apply nonneg_set_assigned. exact (Hps' W).
+Qed.
+
 Lemma INV_pod_add_bound cfg wf st id qn np req keys :
   INV cfg wf st -> (wf = true -> pod_okb req keys = true) ->
-  let p := mkPod id qn req keys np false in
+  let p := mkPod id qn req keys np false true in
   let ps := pods st ++ [p] in
   INV cfg wf
     (charge (mkState (touch_request st p (taint_ids (map q_id (path st qn)) (quotas st)) ps)
                      ps (total st)) p).
 Proof.
-  intros I Hr p ps'. destruct st as [qs0 ps tot]. cbn [quotas pods total] in *.
-  set (ids0 := map q_id (path (mkState qs0 ps tot) qn)).
-  assert (Hps' : wf = true -> forall x, In x ps' -> pod_okb (p_req x) (p_keys x) = true).
-  { intro W. apply nonneg_app; [exact (inv_pods _ _ _ I W)|exact (Hr W)]. }
-  assert (I1 : INV cfg wf (mkState (touch_request (mkState qs0 ps tot) p (taint_ids ids0 qs0) ps') ps' tot)).
-  { apply INV_touch with (ps := ps); [apply INV_taint; exact I|exact Hps']. }
-  destruct (pod_add_bound_facts qs0 ps tot p ps') as [Eids Htn].
-  change (p_quota p) with qn in Eids, Htn. fold ids0 in Eids, Htn.
-  unfold charge. cbn [quotas pods total]. change (p_quota p) with qn. rewrite Eids.
-  apply INV_upd_used with (ps := ps'); [exact I1| |].
-  - intros W q Hq Hid Hnt. exfalso. rewrite (Htn q Hq Hid) in Hnt. discriminate Hnt.
-  - intro W. apply nonneg_set_assigned. exact (Hps' W).
+  intros I Hr p ps'. apply (INV_bound_charge cfg wf st p ps' I).
+  intro W. apply nonneg_app; [exact (inv_pods _ _ _ I W)|exact (Hr W)].
+Qed.
+
+Lemma in_set_np id ps x : In x (set_np id ps) ->
+  exists x0, In x0 ps /\ p_req x = p_req x0 /\ p_keys x = p_keys x0 /\ p_quota x = p_quota x0.
+Proof.
+  unfold set_np. intro H. apply in_map_iff in H. destruct H as (y & <- & Hy).
+  exists y. split; [exact Hy|]. destruct (p_id y =? id); repeat split.
+Qed.
+Lemma nonneg_set_np id ps :
+  (forall x, In x ps -> pod_okb (p_req x) (p_keys x) = true) ->
+  forall x, In x (set_np id ps) -> pod_okb (p_req x) (p_keys x) = true.
+Proof.
+  intros H x Hx. apply in_set_np in Hx. destruct Hx as (x0 & Hx0 & -> & -> & _). auto.
 Qed.
 
 Lemma INV_charge cfg wf st p q anc :
@@ -361,7 +383,7 @@ Proof.
   assert (Hwf : wf && op_okb st sn o = true -> wf = true).
   { intro H. apply andb_true_iff in H. apply H. }
   destruct o as [id parent lend decl mx mindecl mn w|id mx mindecl mn w|id qn np req keys|id|id|id|id|id|t
-                 |id qn np req keys|id|]; unfold step, apply_attempt; cbv zeta.
+                 |id qn np req keys|id|id|]; unfold step, apply_attempt; cbv zeta.
   - (* quota add *)
     destruct (id <=? 0) eqn:E0; cbn [orb fst]; [exact Iw|].
     destruct (find_quota id (quotas st)) eqn:Ef; cbn [orb fst]; [exact Iw|].
@@ -433,6 +455,20 @@ Proof.
     destruct st as [qs0 ps tot]. cbn [quotas pods total] in *.
     apply INV_refresh with (ps := ps); [|exact (inv_pods _ _ _ Iw)].
     apply INV_neutral; [apply neutral_flip|exact Iw].
+  - (* pod relabel *)
+    destruct (find_pod id (pods st)) as [p|] eqn:Ef; cbn [fst]; [|exact Iw].
+    assert (Hps : wf && true = true -> forall x, In x (set_np id (pods st)) -> pod_okb (p_req x) (p_keys x) = true).
+    { intro W. apply nonneg_set_np. exact (inv_pods _ _ _ Iw W). }
+    destruct (p_assigned p).
+    + cbn [fst]. destruct st as [qs0 ps tot]. cbn [quotas pods total] in *.
+      apply INV_touch with (ps := ps); [|exact Hps].
+      apply INV_upd_used with (ps := ps); [exact Iw| |exact (inv_pods _ _ _ Iw)].
+      intros W q Hq _ Ht. exact (inv_used _ _ _ Iw W q Hq Ht).
+    + destruct (p_bound p); cbn [fst].
+      * change (p_quota p) with (p_quota (flip_np p)).
+        apply (INV_bound_charge cfg _ st (flip_np p) (set_np id (pods st)) Iw Hps).
+      * destruct st as [qs0 ps tot]. cbn [quotas pods total] in *.
+        apply INV_touch with (ps := ps); [exact Iw|exact Hps].
   - exact Iw.
 Qed.
 
@@ -458,7 +494,7 @@ Proof.
   { intro H. apply andb_true_iff in H. apply H. }
   assert (Fw : FL (wf && op_okb st sn o) st sn) by (apply (FL_weaken wf); assumption).
   destruct o as [id parent lend decl mx mindecl mn w|id mx mindecl mn w|id qn np req keys|id|id|id|id|id|t
-                 |id qn np req keys|id|]; unfold step, apply_attempt; cbv zeta; cbn [track].
+                 |id qn np req keys|id|id|]; unfold step, apply_attempt; cbv zeta; cbn [track].
   - (* quota add *)
     destruct (id <=? 0) eqn:E0; cbn [orb fst]; [exact Fw|].
     destruct (find_quota id (quotas st)) eqn:Ef; cbn [orb fst]; [exact Fw|].
@@ -548,7 +584,7 @@ Proof.
     destruct (find_quota qn (quotas st)); cbn [fst]; [|exact Fw].
     intro W. destruct (Fw W) as [Hn Hf].
     destruct st as [qs0 ps tot]. cbn [quotas pods total] in *.
-    set (p := mkPod id qn req keys np false). set (ps' := ps ++ [p]).
+    set (p := mkPod id qn req keys np false true). set (ps' := ps ++ [p]).
     destruct (pod_add_bound_facts qs0 ps tot p ps') as [Eids Htn].
     change (p_quota p) with qn in Eids, Htn.
     unfold charge. cbn [quotas pods total]. change (p_quota p) with qn. rewrite Eids.
@@ -570,6 +606,28 @@ Proof.
       destruct (N x) as (Ei & _ & Ed & Em & _ & _ & Eu & _ & _ & Et).
       split; [exact Ei|]. split; [exact Ed|]. rewrite Et. intro Ht. split; [exact Ht|].
       rewrite Eu, Em. split; intros; lia.
+  - (* pod relabel *)
+    destruct (find_pod id (pods st)) as [p|] eqn:Ef; cbn [fst]; [|exact Fw].
+    intro W. destruct (Fw W) as [Hn Hf].
+    destruct (p_assigned p).
+    + cbn [fst quotas]. split.
+      * apply nonneg_touch. unfold upd_used. apply nonneg_map; [|exact Hn]. intros x _ Hx.
+        destruct (mem_id _ _); exact Hx.
+      * apply flight_touch. unfold upd_used. apply flight_map; [|exact Hf]. intros x _.
+        destruct (mem_id _ _); [|apply RL_refl]. repeat split; auto; intros; cbn; lia.
+    + destruct (p_bound p); cbn [fst].
+      * destruct st as [qs0 ps tot]. cbn [quotas pods total] in *.
+        destruct (pod_add_bound_facts qs0 ps tot (flip_np p) (set_np id ps)) as [Eids Htn].
+        change (p_quota (flip_np p)) with (p_quota p) in Eids, Htn.
+        unfold charge. cbn [quotas pods total]. change (p_quota (flip_np p)) with (p_quota p). rewrite Eids.
+        split.
+        -- apply nonneg_charge.
+           ++ apply pod_delta_nonneg. apply find_pod_some in Ef.
+              exact (inv_pods _ _ _ I (Hwf W) p (proj1 Ef)).
+           ++ apply nonneg_touch. apply nonneg_taint. exact Hn.
+        -- apply flight_charge_tainted; [exact Htn|].
+           apply flight_touch. apply flight_taint. exact Hf.
+      * cbn [quotas]. split; [apply nonneg_touch|apply flight_touch]; assumption.
   - exact Fw.
 Qed.
 
